@@ -17,7 +17,7 @@ RULE = ("complete products over explicit alphabets: header fields (version x fla
         "application x identifiers, int and bytes forms; quick = complete pairwise-with-all-flags "
         "product, thorough = full product); generic AVPs code x 256 flag bytes x vendor x data length "
         "0..9 x data form; every dictionary class x every domain value; all AVP sequences of length "
-        "<= 3 (quick) / <= 4 (thorough) over a 12-letter alphabet x 4 construction paths; Grouped "
+        "<= 3 (quick) / <= 4 (thorough) over a 12-letter alphabet x 6 construction paths (constructor, append, extend, list assignment, list assignment over existing content, cleanup + extend); Grouped "
         "chains of depth <= 3 / <= 5 with every vendor pattern; typed command classes. A case is one "
         "(content, construction path); distinct by construction; non-trivial = has at least one AVP or "
         "a non-default header field")
@@ -164,6 +164,15 @@ def build_message(hdr, avps, path, forms="int"):
         m.extend(objs)
     elif path == "setter":
         m.avps = objs
+    elif path == "setter-over-content":
+        # the list is replaced on a message that already holds (the same kind of) AVPs
+        for a in avps:
+            m.append(a.build())
+        m.avps = objs
+    elif path == "cleanup-extend":
+        m.extend([a.build() for a in avps])
+        m.cleanup()
+        m.extend(objs)
     else:
         raise ValueError(path)
     return m
@@ -283,7 +292,7 @@ def part_sequences(rep, arg):
             if idx % nk != k:
                 continue
             avps = [A[i] for i in seq]
-            for path in ("ctor", "append", "extend", "setter"):
+            for path in ("ctor", "append", "extend", "setter", "setter-over-content", "cleanup-extend"):
                 check_message(rep, hdr, avps, path, "seq")
                 n += 1
     rep.add(evaluations=n, distinct=n, sequence_cases=n)
